@@ -55,14 +55,32 @@ Proof. exact read_all. Qed.
 Print Assumptions C11_projection_none.
 
 (* the Dask path: the meta frame's columns are the request without the index
-   levels, in the requested order *)
+   levels, in the requested order.  For a dataset with pandas metadata (every
+   dataset a pandas / Dask / spatialpandas writer produces) nothing but index
+   levels is taken out: a column merely NAMED hilbert_distance is kept *)
 Theorem C11_projection_dask_meta : forall ix cs,
-  cols_no_index ix (Some cs) =
-  Some (filter (fun c => negb (mem c (index_names ix))) cs) /\
-  forall c, In c (filter (fun c => negb (mem c (index_names ix))) cs) <->
-            In c cs /\ c <> "hilbert_distance"%string /\ ~ In (IdxStr c) ix.
+  cols_no_index true ix (Some cs) =
+  Some (filter (fun c => negb (mem c (index_names true ix))) cs) /\
+  forall c, In c (filter (fun c => negb (mem c (index_names true ix))) cs) <->
+            In c cs /\ ~ In (IdxStr c) ix.
 Proof. exact meta_columns. Qed.
 Print Assumptions C11_projection_dask_meta.
+
+(* a dataset WITHOUT pandas metadata has no index description; there, and only
+   there, the conventional index name of a packed dataset is taken out *)
+Theorem C11_projection_dask_meta_nomd : forall ix cs,
+  cols_no_index false ix (Some cs) =
+  Some (filter (fun c => negb (String.eqb c "hilbert_distance")) cs) /\
+  forall c, In c (filter (fun c => negb (String.eqb c "hilbert_distance")) cs) <->
+            In c cs /\ c <> "hilbert_distance"%string.
+Proof. exact meta_columns_nomd. Qed.
+Print Assumptions C11_projection_dask_meta_nomd.
+
+Theorem C11_projection_dask_keeps_hilbert_named_column : forall ix cs,
+  In "hilbert_distance"%string cs -> ~ In (IdxStr "hilbert_distance") ix ->
+  exists kept, cols_no_index true ix (Some cs) = Some kept /\ In "hilbert_distance"%string kept.
+Proof. exact meta_keeps_hilbert_named_column. Qed.
+Print Assumptions C11_projection_dask_keeps_hilbert_named_column.
 
 (* Dask's placeholder name of an unnamed index is undone, nothing else is touched *)
 Theorem C11_index_name : forall n,
@@ -152,8 +170,28 @@ Example ex_projection_explicit :
   = Some ["g"; "k"].
 Proof. vm_compute; reflexivity. Qed.
 
+(* dataset with pandas metadata: the index level k is taken out, an ordinary column
+   named hilbert_distance stays; packed dataset (hilbert_distance IS the index): taken
+   out; no pandas metadata: the conventional name is taken out *)
 Example ex_meta_cols :
-  cols_no_index [IdxStr "k"] (Some ["v"; "k"; "hilbert_distance"; "g"]) = Some ["v"; "g"].
+  cols_no_index true [IdxStr "k"] (Some ["v"; "k"; "hilbert_distance"; "g"])
+  = Some ["v"; "hilbert_distance"; "g"].
+Proof. vm_compute; reflexivity. Qed.
+
+Example ex_meta_cols_packed :
+  cols_no_index true [IdxStr "hilbert_distance"] (Some ["v"; "hilbert_distance"; "g"]) = Some ["v"; "g"].
+Proof. vm_compute; reflexivity. Qed.
+
+Example ex_meta_cols_nomd :
+  cols_no_index false [] (Some ["v"; "k"; "hilbert_distance"; "g"]) = Some ["v"; "k"; "g"].
+Proof. vm_compute; reflexivity. Qed.
+
+(* names that look reserved are ordinary index names *)
+Example ex_index_names_kept :
+  map restore_index_name [Some "index"; Some "level_0"; Some ""; Some "None"; Some "__null_dask_index";
+                          Some "hilbert_distance"; None; Some "__null_dask_index__"]
+  = [Some "index"; Some "level_0"; Some ""; Some "None"; Some "__null_dask_index";
+     Some "hilbert_distance"; None; None].
 Proof. vm_compute; reflexivity. Qed.
 
 (* two representations of [Some [1,2,3,4]; None; Some []]: the second one sliced out of a
